@@ -27,9 +27,9 @@ FUNCTIONS = ['construct_repetition_code_circuit', 'construct_repetition_code_cir
              'temporary_override_get_registry_at', 'RelationLink.get_start_time', 'MultiRelationLink.reference_node/get_start_time',
              'CircuitCompositeOperation.duration/decomposed_operations/apply_modifiers_to_self/repeat/extend', 'ChannelIdentifier.__eq__']
 BOUNDS = {'quick': "full constructor d in {2,3} x cycles 0..3 (chain from length, refocusing on), d=2 x cycles 0..2 refocusing off, simplified d in {2,3} x cycles 1..2, "
-                   "qubit and qutrit calibration on 1..2 qubits, one sub-chain (3 data qubits) of Repetition9Code x cycles {0,2}; as constructed and after apply_modifiers(); "
+                   "qubit and qutrit calibration on 1..2 qubits, one sub-chain (3 data qubits) of Repetition9Code x cycles {0,2} and the same sub-chain as composite description with each single gate left out (1 cycle); as constructed and after apply_modifiers(); "
                    "all four global durations symbolic reals > 0",
-          'thorough': "d <= 4, cycles 0..5, every contiguous sub-chain with 2..3 data qubits of the three shipped layouts x cycles {0,1,2,4}, multi-round constructor with rounds "
+          'thorough': "d <= 4, cycles 0..5, every contiguous sub-chain with 2..3 data qubits of the three shipped layouts x cycles {0,1,2,4}, composite descriptions (single gate exclusions, Repetition9Code, 3 data qubits, cycles 1..2), multi-round constructor with rounds "
                       "lists of length <= 2 over {0,1,2,4}"}
 OUTSIDE = ["distances / cycle counts beyond the bound (the number of paths grows with the number of unrolled cycles)", "non-positive global durations",
            "user-defined descriptions other than from_chain / from_connectivity of shipped layouts"]
@@ -56,6 +56,9 @@ def jobs(tier, seed):
         sc = lib.sub_chains('Repetition9Code', 3, 3)[0]
         for cycles in (0, 2):
             out.append({'spec': {'kind': 'full', 'd': 3, 'cycles': cycles, 'desc': {'layout': 'Repetition9Code', 'involved': sc}}})
+        # composite descriptions: the same sub-chain with one of its gates left out
+        for a, b in zip(sc[:-1], sc[1:]):
+            out.append({'spec': {'kind': 'full', 'd': 3, 'cycles': 1, 'desc': {'layout': 'Repetition9Code', 'involved': sc, 'exclude_edges': [[a, b]]}}})
     else:
         for d in (2, 3, 4):
             for cycles in range(0, 6):
@@ -72,6 +75,10 @@ def jobs(tier, seed):
                 nd = (len(sc) + 1) // 2
                 for cycles in (0, 1, 2, 4):
                     out.append({'spec': {'kind': 'full', 'd': nd, 'cycles': cycles, 'desc': {'layout': name, 'involved': sc}}})
+                if name == 'Repetition9Code' and nd == 3:
+                    for a, b in zip(sc[:-1], sc[1:]):
+                        for cycles in (1, 2):
+                            out.append({'spec': {'kind': 'full', 'd': nd, 'cycles': cycles, 'desc': {'layout': name, 'involved': sc, 'exclude_edges': [[a, b]]}}})
         for rounds in [[0], [1], [2], [4], [0, 1], [1, 0], [2, 1], [4, 2], [0, 2]]:
             out.append({'spec': {'kind': 'multi', 'd': 2, 'rounds': rounds, 'desc': {'chain': 3}}})
     return out
